@@ -153,8 +153,13 @@ func main() {
 		go func(k kit.Kind) { defer wg.Done(); runKind(r, k, level) }(kind)
 	}
 	wg.Wait()
+	for _, kind := range kit.AllKinds {
+		wg.Add(1)
+		go func(k kit.Kind) { defer wg.Done(); sparseKind(r, k) }(kind)
+	}
+	wg.Wait()
 	serverInitiated(r)
-	r.Finish("per server configuration: every valid request of the standard fixture, then structural mutations (params and each parameter removed / retyped to every JSON type / extra / duplicated; envelope members removed / retyped / duplicated; notifications; responses never asked for; non-object and unparsable bodies; deep and large values; HTTP-level wrong path / verb / headers / session id; thorough adds truncation at every offset, bit flips, random bytes) x handler outcomes {value, error, unencodable, isError, nil content}; every frame written back is validated by the hand-written JSON-RPC/MCP oracle and the answer class compared with the reference classifier. Distinct = (configuration, request class, answer class) that conformed.",
+	r.Finish("per server configuration: every valid request of the standard fixture, then structural mutations (params and each parameter removed / retyped to every JSON type / extra / duplicated; envelope members removed / retyped / duplicated; notifications; responses never asked for; non-object and unparsable bodies; deep and large values; HTTP-level wrong path / verb / headers / session id; thorough adds truncation at every offset, bit flips, random bytes) x handler outcomes {value, error, unencodable, isError, nil content}; every frame written back is validated by the hand-written JSON-RPC/MCP oracle and the answer class compared with the reference classifier. A second sweep repeats the handshake, every list method and read/get/call on registries other than the standard fixture (nothing registered, tools registered and all unregistered again, only a template, one bare tool / prompt / resource with every optional member left out, the standard fixture filtered down to an empty and to a nil list). Distinct = (configuration, [registry,] request class, answer class) that conformed.",
 		[]string{"the hand-written validators in lib/wire are the trusted base (the official schema file is not in the sandbox)",
 			"where the statement fixes no code (unknown tool/prompt/resource) -32601 and -32602 are both accepted; ignorable optional parameters may be served or refused",
 			"a missing answer on stdio / legacy SSE is confirmed by a second post with a 3 s wait before it counts"})
